@@ -1013,3 +1013,41 @@ func DependsOnDeep(v ssa.Value, pred func(ssa.Value) bool) bool {
 	rec(v)
 	return found
 }
+
+// HoldsInto reports whether ok(facts) is true on every way of reaching block
+// b: either the facts dominating b satisfy it, or — when b (or a dominator) is
+// a join — every incoming edge does, the branch taken on that edge included.
+// This reads the `a || b` guards the compiler lowers to two edges into one
+// block.
+func HoldsInto(b *ssa.BasicBlock, ok func([]Fact) bool) bool {
+	return holdsInto(b, ok, 0)
+}
+
+func holdsInto(b *ssa.BasicBlock, ok func([]Fact) bool, depth int) bool {
+	if depth > 6 {
+		return false
+	}
+	for d := b; d != nil; d = d.Idom() {
+		if ok(FactsAt(d)) {
+			return true
+		}
+		if len(d.Preds) > 1 {
+			all := true
+			for _, pr := range d.Preds {
+				fs := FactsAt(pr)
+				if len(pr.Instrs) > 0 {
+					if iff, isIf := pr.Instrs[len(pr.Instrs)-1].(*ssa.If); isIf && pr.Succs[0] != pr.Succs[1] {
+						fs = append(fs, Fact{Cond: iff.Cond, Val: pr.Succs[0] == d, If: iff})
+					}
+				}
+				if !ok(fs) && !holdsInto(pr, ok, depth+1) {
+					all = false
+				}
+			}
+			if all {
+				return true
+			}
+		}
+	}
+	return false
+}
